@@ -46,8 +46,7 @@ SoupInit == mode = "soup" /\ soup \in Soups(MaxEdits) /\ msi = 0 /\ lexs = <<>> 
 SoupText == LET RECURSIVE go(_) go(i) == IF i > Len(soup) THEN <<>> ELSE Vocab[soup[i]] \o (IF i < Len(soup) THEN <<SP>> ELSE <<>>) \o go(i + 1) IN go(1)
 
 \* nesting of ( [ and CASE up to the documented depth bound of 64
-RECURSIVE Rep(_, _)
-Rep(s, n) == IF n = 0 THEN <<>> ELSE s \o Rep(s, n - 1)
+Rep(s, n) == [i \in 1..(n * Len(s)) |-> s[((i - 1) % Len(s)) + 1]]          \* s repeated n times (a function: linear, also for n = 20000)
 SelectPrefix == <<83, 69, 76, 69, 67, 84, 32>>          \* "SELECT "
 FromSuffix == <<32, 70, 82, 79, 77, 32, 116>>           \* " FROM t"
 NestParen(n) == SelectPrefix \o Rep(<<40>>, n) \o <<49>> \o Rep(<<41>>, n) \o FromSuffix
@@ -57,7 +56,17 @@ NestCase(n) == SelectPrefix \o Rep(<<67, 65, 83, 69, 32, 87, 72, 69, 78, 32, 49,
 NestOpen(n) == SelectPrefix \o Rep(<<40>>, n)           \* unbalanced
 
 
-ExtraCases == {[kind |-> "bad", text |-> BadStatements[i], allowed |-> {"err"}] : i \in 1..Len(BadStatements)}
+\* a pattern string that nests groups / repeats far beyond anything sensible: the table definition is accepted or rejected, never a crash
+\* (the regular-expression compiler recurses over the nesting; its limits are what keeps that within the stack)
+PatPrefix == <<67, 82, 69, 65, 84, 69, 32, 84, 65, 66, 76, 69, 32, 116, 40, 108, 105, 110, 101, 32, 61, 32, 39>>
+PatSuffix == <<39, 44, 32, 108, 105, 110, 101, 91, 49, 93, 32, 61, 62, 32, 120, 32, 84, 69, 88, 84, 41, 59>>
+PatNest(n) == PatPrefix \o Rep(<<40>>, n) \o <<97>> \o Rep(<<41>>, n) \o PatSuffix
+PatClass(n) == PatPrefix \o Rep(<<91, 97, 38, 38>>, n) \o <<91, 97, 93>> \o Rep(<<93>>, n) \o PatSuffix          \* [a&&[a&&[a]]]
+PatRepeat(n) == PatPrefix \o <<97>> \o Rep(<<123, 49, 48, 48, 48, 125>>, n) \o PatSuffix
+PatAlt(n) == PatPrefix \o <<40>> \o Rep(<<97, 124>>, n) \o <<97, 41>> \o PatSuffix
+ExtraCases == {[kind |-> "patnest", text |-> f, allowed |-> {"ok", "err"}] :
+                  f \in {PatNest(n) : n \in {1, 64, 250, 251, 1000, 5000, 20000}} \cup {PatClass(n) : n \in {1, 64, 1000, 5000}} \cup {PatRepeat(n) : n \in {1, 2, 3, 8}}
+                        \cup {PatAlt(n) : n \in {1, 1000, 20000}}} \cup {[kind |-> "bad", text |-> BadStatements[i], allowed |-> {"err"}] : i \in 1..Len(BadStatements)}
               \cup {[kind |-> "nest", text |-> f, allowed |-> {"ok"}] : f \in {NestParen(n) : n \in {1, 2, 8, 32, 64}} \cup {NestIndex(n) : n \in {1, 8, 64}} \cup {NestCase(n) : n \in {1, 8, 64}}}
               \cup {[kind |-> "nest", text |-> NestOpen(n), allowed |-> {"err"}] : n \in {1, 8, 64}}
 ExtraInit == mode = "extra" /\ extra \in ExtraCases /\ soup = <<>> /\ msi = 0 /\ lexs = <<>> /\ cut = -1 /\ muts = 0
